@@ -246,6 +246,8 @@ Perm1Cfgs ==
     {Cfg(d, DefaultNC, f, DefaultNC, 493, 18, 1001) : d \in NodeCfgs(AllRwx, {0}), f \in NodeCfgs(IF MaxLen >= 2 THEN AllRwx ELSE {0, 2, 4, 6, 7}, {0})}
     \* sticky and set-gid directories
     \cup {Cfg(d, DefaultNC, f, DefaultNC, 493, 18, 1001) : d \in NodeCfgs({3, 7}, {512, 1024}), f \in NodeCfgs({6}, {0})}
+    \* set-uid / set-gid files: changing their content as a non-administrator takes the bits away
+    \cup {Cfg(NC("own", 7, 0), DefaultNC, f, DefaultNC, 493, 18, a) : f \in NodeCfgs({2, 3, 6, 7}, {2048, 1024, 3072}), a \in {1001, 0}}
     \* other umasks for the creating calls
     \cup {Cfg(d, DefaultNC, NC("own", 6, 0), DefaultNC, 493, um, 1001) : d \in NodeCfgs({7}, {0, 1024}), um \in {0, 63, 511}}
     \* /w without search or read permission for the acting user (who is "other" for /w)
